@@ -9,6 +9,7 @@ Require Import Cirbo.Proofs.EvalFacts Cirbo.Proofs.IsoFacts Cirbo.Proofs.CodecFa
 Require Import Cirbo.Proofs.DbCheckFacts Cirbo.Proofs.DbTruthTableFacts Cirbo.Proofs.NormFacts Cirbo.Proofs.DbFacts.
 Require Import Cirbo.Generated.CodecAlgGen Cirbo.Generated.NormAlgGen Cirbo.Proofs.NormAlgGen Cirbo.Proofs.NormAlgGenSum.
 Require Import Cirbo.Proofs.ModelLookupFacts Cirbo.Proofs.CompletionFacts Cirbo.Proofs.LabelFacts Cirbo.Proofs.DecodeFacts Cirbo.Proofs.SweptDb Cirbo.Proofs.LookupTotal.
+Require Import Cirbo.Generated.DbAlgGen Cirbo.Proofs.DbAlgGenDefs Cirbo.Proofs.DbAlgGenSum.
 
 (* ---- data half ---- *)
 (* an accepted entry decodes to a well-formed circuit over the basis whose truth table,
@@ -99,8 +100,8 @@ Proof. exact model_lookup_minimal_among_completions. Qed.
    about.  gen_of_norm ni (Proofs/NormAlgGen.v) is the Python object (Optional lists of Python ints) that
    NormalizationInfo(t) builds when the hand model builds ni; to_db maps a generated result into the model's
    dbres (CircuitIsNotCompatibleWithNormalizationParameters is TruthTableBadShapeError in the generated code,
-   NotCompatibleWithNormalization in the model).  The class CircuitsDatabase itself (file handling, the lookup
-   loops) is hand-modelled only. *)
+   NotCompatibleWithNormalization in the model).  The methods of the class CircuitsDatabase itself:
+   C17_database_regenerated below. *)
 Theorem C17_lookup_regenerated :
   (* normalization.py: the three steps of NormalizationInfo(t) write one attribute each ... *)
   (forall o t, gen_NormalizationInfo__normalize_outputs o t
@@ -139,6 +140,56 @@ Example C17_example_regenerated_lookup :
    Ok (l, outputs c'))
   = Ok ("0001", ["not_gate_2"]).
 Proof. vm_compute; reflexivity. Qed.
+
+(* ---- the regenerated class CircuitsDatabase (translator T23) ----
+   Generated/DbAlgGen.v is produced on every check from the STATEMENTS of the methods get_by_label,
+   get_by_raw_truth_table, add_circuit, get_by_raw_truth_table_model and save of the class CircuitsDatabase in db.py
+   (the in-place stores defined_truth_table[j][k] = val under itertools.product, the DontCare tests on three-valued
+   cells, the best-so-far bookkeeping included).  The object is the record of its attribute _dict:
+   db_obj None = not opened, db_obj (Some d) = opened with the dictionary d of the hand model.  NotOpened
+   (CircuitDatabaseNotOpenedError) is TraverseMethodError and CircuitsDatabaseError is BadDefinitionError in the
+   generated code (Base.err has no constructors for them); to_db2 (Proofs/DbAlgGenDefs.v) maps a generated result
+   into the model's dbres.  Every method equals the hand model for ALL arguments (no side condition on the tables:
+   empty, ragged and don't-care-free tables included).  open / close (lzma, pathlib, isinstance dispatch) are not
+   regenerated. *)
+Theorem C17_database_regenerated :
+  (* a database that is not opened: CircuitDatabaseNotOpenedError, where the source raises it *)
+  (forall l, gen_CircuitsDatabase_get_by_label (db_obj None) l = Err NotOpened) /\
+  (forall t, gen_CircuitsDatabase_get_by_raw_truth_table (db_obj None) t = do _ <- normalize t; Err NotOpened) /\
+  (forall fuel c l, gen_CircuitsDatabase_add_circuit fuel (db_obj None) c l = Err NotOpened) /\
+  (forall tm excl, gen_CircuitsDatabase_get_by_raw_truth_table_model (db_obj None) tm excl
+     = do _ <- normalize (substitute (defined_table tm) (undefined_positions tm)
+                                      (repeat false (length (undefined_positions tm))));
+       Err NotOpened) /\
+  (forall s, gen_CircuitsDatabase_save (db_obj None) s = Err NotOpened) /\
+  (* an opened database with dictionary d: the hand model on d, for all arguments *)
+  (forall d l, gen_CircuitsDatabase_get_by_label (db_obj (Some d)) l = get_by_label d l) /\
+  (forall d t, to_db2 (gen_CircuitsDatabase_get_by_raw_truth_table (db_obj (Some d)) t) = get_by_raw_truth_table d t) /\
+  (forall d tm excl, to_db2 (gen_CircuitsDatabase_get_by_raw_truth_table_model (db_obj (Some d)) tm excl)
+     = get_by_raw_truth_table_model d tm excl) /\
+  (* add_circuit with an explicit label (fuel of the encoder's `while pending` loop: the number of non-input gates) *)
+  (forall d c l, to_db2 (gen_CircuitsDatabase_add_circuit (length (non_input_labels c)) (db_obj (Some d)) c (Some l))
+     = dbdo d' <- add_circuit d c l; DbOk (db_obj (Some d'))) /\
+  (* ... and with label=None: the label of the circuit's truth table, which must be its own normal form *)
+  (forall fuel d c, gen_CircuitsDatabase_add_circuit fuel (db_obj (Some d)) c None
+     = do t <- py_circuit_truth_table c;
+       do ni <- normalize t;
+       if negb (all_eqb (all_eqb Bool.eqb) (norm_table ni) t) then Err BadDefinitionError
+       else gen_CircuitsDatabase_add_circuit fuel (db_obj (Some d)) c (Some (truth_table_to_label (norm_table ni)))) /\
+  (forall d s, gen_CircuitsDatabase_save (db_obj (Some d)) s = do b <- save d; Ok (s ++ b)).
+Proof. exact database_regenerated_holds. Qed.
+
+(* the regenerated class does perform the don't-care lookup of the non-vacuity example below, adds a circuit under the
+   label of its truth table and refuses to add it twice *)
+Example C17_example_regenerated_database :
+  (do oc <- gen_CircuitsDatabase_get_by_raw_truth_table_model
+              (db_obj (Some [("0001", map ascii_of_N [2; 86; 144]%N)])) [[Some false; None; None; Some true]] None;
+   Ok (option_map outputs oc)) = Ok (Some ["gate_2"]) /\
+  (let c := mkCircuit ["a"] ["a"] [("a", mkGate INPUT [])] [] [] in
+   do o <- gen_CircuitsDatabase_add_circuit 0 (db_obj (Some [])) c None;
+   Ok (option_map (map fst) (CircuitsDatabase__dict o), gen_CircuitsDatabase_add_circuit 0 o c None))
+  = Ok (Some ["01"], Err BadDefinitionError).
+Proof. split; vm_compute; reflexivity. Qed.
 
 (* ---- non-vacuity ---- *)
 (* the AIG entry stored under "0001" (AND of the two inputs) is accepted, and the one-entry
